@@ -435,10 +435,14 @@ def plan(prop, tier, seed, budget):
         )
     elif prop == 'C16':
         hs = ['map', 'vector', 'string', 'hash', 'mem', 'array']
-        jobs = [g7_jobs(h, 4000 if q else 40000, workers=3 if q else 5, pair_max=24) for h in hs]
+        # the containers that allocate nothing today are driven under the same engine (a script without allocation requests
+        # is run once): an allocation added to them later gets its fault sets without anybody remembering to list it here
+        hs0 = ['dlist', 'slist', 'tree', 'heap', 'sort']
+        jobs = [g7_jobs(h, 2000 if q else 40000, workers=3 if q else 5, pair_max=24) for h in hs] + \
+               [g7_jobs(h, 1500 if q else 15000, workers=1 if q else 2, pair_max=24) for h in hs0]
         P = dict(
             level='fault_enumeration',
-            builds=[(h, 'asan') for h in hs],
+            builds=[(h, 'asan') for h in hs + hs0],
             jobs=jobs,
             rule='evaluation = (script, fault set): scripts are generated allocation-heavy histories of the map, vector, string/wstring, hash, '
                  'unique/shared/weak pointer and array decoders; a fault-free run counts the script\'s N library allocation requests, then '
